@@ -18,7 +18,7 @@ import (
 )
 
 type op struct {
-	K    string `json:"k"` // propT propF dkg stop complain sign des desall act actall req | end endx endv
+	K    string `json:"k"` // propT propF rogue dkg stop complain sign des desall act actall req | end endx endv
 	A    int    `json:"a,omitempty"`
 	B    int    `json:"b,omitempty"`
 	Mask uint32 `json:"m,omitempty"`
@@ -119,7 +119,9 @@ func (g *opw) execOffset(need int) int {
 
 func (g *opw) noiseOp() {
 	rt := g.rt
-	switch gen.Pick(rt, "noise", 5, 2, 2, 1, 1, 3, 2, 1, 1, 1) {
+	switch gen.Pick(rt, "noise", 5, 2, 2, 1, 1, 3, 2, 1, 1, 1, 2) {
+	case 10:
+		g.rogue(gen.Pick(rt, "rkind", 4, 1, 1))
 	case 0:
 		g.emit(op{K: "req", A: gen.Uniform(rt, "u", nReq), B: gen.Pick(rt, "feev", 5, 2, 1)})
 	case 1:
@@ -411,6 +413,25 @@ func (g *opw) inactiveCarrySegment() {
 	g.after()
 }
 
+// rogue: an authority-only bandtss message in a plain transaction of an ordinary account (see blockBuilder.build).
+// The exec-time offset counts from the block itself (a transaction takes effect at once) and is mostly inside the window.
+func (g *opw) rogue(kind int) {
+	rt, c := g.rt, g.c
+	off := c.Min + gen.OneOf(rt, "roff", 0, 0, 1, 1, 2)
+	if off > c.Max {
+		off = c.Max
+	}
+	if gen.Chance(rt, "roffbad", 1, 8) {
+		off = gen.OneOf(rt, "roffb", c.Min-1, c.Max+1, 0)
+	}
+	ms := 0
+	if off < c.Max && gen.Chance(rt, "rms", 1, 3) {
+		ms = gen.OneOf(rt, "rmsv", 1, 500, 900)
+	}
+	g.emit(op{K: "rogue", A: kind, B: off, Ms: ms, D: gen.Pick(rt, "rauth", 4, 1),
+		Mask: uint32(gen.Uniform(rt, "rsender", 8))<<8 | uint32(gen.Range(rt, "rsel", 1, 31))})
+}
+
 // Selectors of MsgForceTransitionGroup targets that are NOT groups with a finished key generation (late-bound in
 // blockBuilder.build; when no such group exists the selector falls back to "any group").
 const (
@@ -596,6 +617,12 @@ func (g *opw) staleHandoverSegment() {
 func (g *opw) after() {
 	rt := g.rt
 	g.emit(op{K: "end", A: 1})
+	if gen.Chance(rt, "rogueafter", 1, 2) {
+		// the transition is over (executed: the replaced group is still ACTIVE in x/tss; dropped after key generation: so is
+		// the incoming one): an ordinary account tries what only governance may do
+		g.rogue(gen.Pick(rt, "rkind", 6, 1, 1))
+		g.emit(op{K: "end", A: 1})
+	}
 	for i, n := 0, gen.Range(rt, "aftern", 0, 2); i < n; i++ {
 		g.emit(op{K: "req", A: gen.Uniform(rt, "u", nReq)}, op{K: "end", A: 1}, op{K: "sign", A: gen.Uniform(rt, "s", 3), Mask: 0xff}, op{K: "end", A: 1})
 		g.noise(1, 4)
@@ -628,6 +655,10 @@ func genC18(rt *rapid.T) c18Case {
 	for i := 0; i < nseg; i++ {
 		g.starve = gen.Chance(rt, "starve", 1, 4)
 		g.segStart = len(g.ops)
+		if gen.Chance(rt, "roguefirst", 1, 4) {
+			g.rogue(0)
+			g.emit(op{K: "end", A: 1})
+		}
 		switch gen.Pick(rt, "seg", 6, 3, 1, 1, 4, 4, 2) {
 		case 6:
 			g.inactiveCarrySegment()
